@@ -39,7 +39,7 @@ SCHED = ["empty", "zeros", "extreme", "length-1", "linear", "geometric", "list"]
 def FLOORS(tier):
     q = tier == "quick"
     f = {"kernel-calls:c_anneal_quso": 120 if q else 20000, "kernel-calls:c_anneal_puso": 120 if q else 20000,
-         "boundary-contract-checks": 250 if q else 40000, "hook-index-checks": 10 ** 5, "reference-call-repeats": 8,
+         "boundary-contract-checks": 250 if q else 40000, "hook-index-checks": 10 ** 5, "reference-call-repeats": 8, "leak-probe-calls": 800,
          "sanitizer-log-polls": 300}
     for c in CLASSES:
         f["class:" + c] = (8 if c in ("chain-2000", "dense-40") else 25) if q else 1500
@@ -358,8 +358,38 @@ def case(ctx, rng, idx):
         ctx.sample({"class": cfg["class"], "call": w}, limit=3)
 
 
+def leak_probe(ctx):
+    """'later calls unaffected': objects that stay alive per call (an unbounded leak ends in an OOM kill of a long history).
+    Counts gc-tracked objects around two batches of identical calls; growth proportional to the calls is a leak."""
+    import gc
+    M = {(i, i + 1): 1.0 for i in range(12)}
+    P = {(i, i + 1, i + 2): 1.0 for i in range(10)}
+
+    def batch():
+        for _ in range(15):
+            L.sim.anneal_quso(M, num_anneals=40, anneal_duration=2, seed=1)
+            L.sim.anneal_puso(P, num_anneals=40, anneal_duration=2, seed=1)
+            L.sim.anneal_qubo(M, num_anneals=40, anneal_duration=2, seed=1)
+
+    def live():
+        gc.collect()
+        return len(gc.get_objects())
+    batch()
+    a = live()
+    batch()
+    b = live()
+    batch()
+    c = live()
+    ctx.count("leak-probe-calls", 135)
+    ctx.extra["leak_probe_growth"] = [b - a, c - b]
+    if b - a > 200 and c - b > 200:
+        ctx.violation("leak:objects-kept-alive-per-call", "%d and %d gc-tracked objects stay alive after two batches of 45 calls "
+                      "(about %.0f per call)" % (b - a, c - b, (c - a) / 90.0), {"growth": [b - a, c - b]})
+
+
 def finish(ctx):
     ctx.idx = -1
+    leak_probe(ctx)
     again = reference_results()
     ctx.count("reference-call-repeats")
     if again != _state["ref"]:
